@@ -41,6 +41,18 @@ def plan(tier, seed):
     # radix 10
     for lr, rr, el, er in [(S32, S32, -2, 0), (S64, S32, 0, -3), (S16, U8, 1, -1), (U32, U64, -4, -4), (S64, S64, 3, 5)]:
         add(sc(lr, el, 10), sc(rr, er, 10), 'r10|%s:%d|%s:%d' % (short(lr), el, short(rr), er))
+    # radix 10 over narrow and wide reps with gaps that exceed what the narrow rep itself could hold (10^3 > int8, 10^5 > int16)
+    R10 = [S8, U8, S16, U16, S32, S64]
+    E10 = [(0, -3), (-5, 0), (2, -2), (1, 6), (-1, -1), (-4, 3)]
+    for i, lr in enumerate(R10):
+        for j, rr in enumerate(R10):
+            for k, (el, er) in enumerate(E10):
+                if quick and (i + j + k) % 3:
+                    continue
+                add(sc(lr, el, 10), sc(rr, er, 10), 'r10|%s:%d|%s:%d' % (short(lr), el, short(rr), er))
+    for t in (S8, S16, U8):
+        add(sc(S32, -3, 10), t, 'r10|int:-3|builtin_%s' % short(t))
+        add(t, sc(S16, -5, 10), 'r10|builtin_%s|short:-5' % short(t))
     if not quick:
         for lr, rr, el, er in [(S128, S128, -70, -64), (U128, S64, 60, 70), (S128, S32, -40, -10), (S64, S64, -70, -40), (U64, U64, 40, 70),
                                (S64, S128, 0, 0), (U128, U128, -5, -5)]:
